@@ -461,10 +461,12 @@ func (pp *proportionPlugin) allocateHandlerFn(ssn *framework.Session) func(event
 			}
 		}
 
-		leafQueue := pp.queues[job.Queue]
-		log.InfraLogger.V(7).Infof("Proportion AllocateFunc: job <%v/%v>, task resources <%s>, "+
-			"queue: <%v>, queue allocated resources: <%v>",
-			job.Namespace, job.Name, taskResources, leafQueue.Name, leafQueue.GetAllocatedShare())
+		// a job may name a queue the snapshot does not hold (deleted, or pruned for a malformed parent chain)
+		if leafQueue, found := pp.queues[job.Queue]; found {
+			log.InfraLogger.V(7).Infof("Proportion AllocateFunc: job <%v/%v>, task resources <%s>, "+
+				"queue: <%v>, queue allocated resources: <%v>",
+				job.Namespace, job.Name, taskResources, leafQueue.Name, leafQueue.GetAllocatedShare())
+		}
 	}
 }
 
@@ -485,10 +487,12 @@ func (pp *proportionPlugin) deallocateHandlerFn(ssn *framework.Session) func(eve
 			}
 		}
 
-		leafQueue := pp.queues[job.Queue]
-		log.InfraLogger.V(7).Infof("Proportion DeallocateFunc: job <%v/%v>, task resources <%s>, "+
-			"queue: <%v>, queue allocated resources: <%v>",
-			job.Namespace, job.Name, taskResources, leafQueue.Name, leafQueue.GetAllocatedShare())
+		// stale-gang eviction also evicts pods of jobs whose queue the snapshot does not hold
+		if leafQueue, found := pp.queues[job.Queue]; found {
+			log.InfraLogger.V(7).Infof("Proportion DeallocateFunc: job <%v/%v>, task resources <%s>, "+
+				"queue: <%v>, queue allocated resources: <%v>",
+				job.Namespace, job.Name, taskResources, leafQueue.Name, leafQueue.GetAllocatedShare())
+		}
 	}
 }
 
